@@ -1,6 +1,8 @@
 # Import the real trx_toolkit modules from $VERIF_REPO and capture their log records.
 
 import importlib
+import importlib.abc
+import importlib.util
 import logging
 import os
 import sys
@@ -9,12 +11,56 @@ REPO = os.environ.get("VERIF_REPO", "/repo")
 TK_DIR = os.path.join(REPO, "src", "target", "trx_toolkit")
 
 _mods = {}
+_code = {}   # module name -> compiled code object (source compiled once per process)
+
+
+class _Finder(importlib.abc.MetaPathFinder, importlib.abc.Loader):
+	"""Imports toolkit modules from $VERIF_REPO by executing a cached code object, so that
+	`reset()` can hand every simulated run FRESH module objects (class attributes, module-level
+	caches and iterators start from scratch: state that leaks from one run into the next would
+	make runs depend on what the worker process executed before) at the cost of re-executing
+	the module bodies only, not of re-compiling them."""
+
+	def find_spec(self, name, path=None, target=None):
+		if "." in name:
+			return None
+		fn = os.path.join(TK_DIR, name + ".py")
+		if not os.path.isfile(fn):
+			return None
+		return importlib.util.spec_from_file_location(name, fn, loader=self)
+
+	def create_module(self, spec):
+		return None
+
+	def exec_module(self, module):
+		name = module.__name__
+		code = _code.get(name)
+		if code is None:
+			fn = os.path.join(TK_DIR, name + ".py")
+			with open(fn, "rb") as f:
+				code = compile(f.read(), fn, "exec", dont_inherit=True)
+			_code[name] = code
+		exec(code, module.__dict__)
+
+
+_finder = _Finder()
+
+
+_names = []
+
+
+def _toolkit_names():
+	if not _names:
+		_names.extend(f[:-3] for f in os.listdir(TK_DIR) if f.endswith(".py"))
+	return _names
 
 
 def tk(name):
 	"""Return the toolkit module `name`, imported from the repository's working tree."""
 	m = _mods.get(name)
 	if m is None:
+		if _finder not in sys.meta_path:
+			sys.meta_path.insert(0, _finder)
 		if TK_DIR not in sys.path:
 			sys.path.insert(0, TK_DIR)
 		sys.dont_write_bytecode = True
@@ -24,6 +70,15 @@ def tk(name):
 			raise RuntimeError("module %s was imported from %s, not from %s" % (name, f, TK_DIR))
 		_mods[name] = m
 	return m
+
+
+def reset():
+	"""Forget every toolkit module: the next tk() gives fresh module objects."""
+	for name in list(_mods):
+		sys.modules.pop(name, None)
+	for name in _toolkit_names():
+		sys.modules.pop(name, None)
+	_mods.clear()
 
 
 class _Capture(logging.Handler):
